@@ -182,6 +182,8 @@ def finish(bld, container_geom, lat_cell, fill_of_container, trcl=None,
         M.shuffle_options(deck, bld.rng)
     if bld.rng.random() < 0.3:
         M.vary_largest_surface(deck, bld.rng)
+    if bld.rng.random() < 0.15:
+        M.add_unrelated_cards(deck, bld.rng)
     return deck
 
 
